@@ -23,14 +23,18 @@
    ACCURACY OF lengthAtTime (Proofs/C16acc.v, from the quadrature accuracy theorem of Proofs/C04acc.v): for a cubic or quadratic whose speed stays
    within a factor 2, lengthAtTime t is within 2e-4 of the exact arc length over [0,t]; between two parameters it increases by the true arc
    length between them (at least m (t2 - t1)) minus at most 4e-4 of the curve's length: non-decreasing up to that tolerance.
-   NOT covered by a theorem: the same for curves whose speed varies by more than a factor 2, and the spacing clause (arc gaps = length/n within
-   5% + two lookup steps), which rests on the look-up table as well; termination and
+   SPACING (Proofs/C16space.v): consecutive parameters of regularSampleTValue enclose at most len/samples + K/len + 2 eps of any length function A that the
+   recorded lengths approximate to eps and that grows by at most K per unit parameter; for gentle cubics and quadratics: at most length/n + 2.001 + 4e-4 L of
+   exact arc length (an UPPER bound on every gap, the appended end included).
+   NOT covered by a theorem: the same for curves whose speed varies by more than a factor 2, and the LOWER half of the spacing clause (gaps not
+   smaller than length/n minus tolerance: false in general, see the refutation above); termination and
    absence of exceptions in FLOAT arithmetic (exercised bit-exactly by the correspondence, not proved). *)
 
 From Coq Require Import PrimFloat.
 From Coq Require Import ZArith List Bool Reals Lra Permutation Sorted.
 From BZ Require Import Base.Ops Gen.Point Gen.Line Gen.Quad Gen.Cubic Gen.Sample Hand.Sample Proofs.C16 Proofs.C16cont Proofs.Bridge2.
 Import ListNotations.
+From BZ Require Proofs.C16space.
 From BZ Require Proofs.C04 Proofs.C10flat Proofs.C16acc.
 Open Scope R_scope.
 
@@ -111,6 +115,21 @@ Proof. exact @C16acc.quad_lengthAtTime_accuracy. Qed.
 Theorem C16_cubic_lengthAtTime_increase :
   forall (s : seg4 R) (m M t1 t2 : R), 0 < m -> (forall u : R, 0 <= u <= 1 -> m <= C04.cubic_speed s u <= M) -> M <= 2 * m -> 0 < t1 <= t2 -> t2 <= 1 -> Cubic_lengthAtTime ROps s t2 - Cubic_lengthAtTime ROps s t1 >= C10flat.cubic_arclen s t1 t2 - 4 / 10 ^ 4 * C10flat.cubic_arclen s 0 1 /\ C10flat.cubic_arclen s t1 t2 >= m * (t2 - t1).
 Proof. exact @C16acc.cubic_lengthAtTime_increase. Qed.
+Theorem C16_regular_gaps :
+  forall (lengthAt : R -> res R) (len : R) (A : R -> R) (eps K samples : R), 0 < len -> 0 < samples -> 0 <= eps -> 0 <= K -> (forall t v : R, 0 <= t <= 1 -> lengthAt t = Ok v -> Rabs (v - A t) <= eps) -> Rabs (len - A 1) <= eps -> (forall t h : R, 0 <= t -> 0 <= h -> t + h <= 1 -> A (t + h) - A t <= K * h) -> forall (fuel1 fuel2 : nat) (ts : list R), regularSampleTValue ROps lengthAt len fuel1 fuel2 samples = Ok ts -> C16space.arc_gaps A (len / samples + K * (1 / len) + 2 * eps) ts.
+Proof. exact @C16space.regular_gaps. Qed.
+Theorem C16_regular_fine_partition :
+  forall (lengthAt : R -> res R) (len : R) (A : R -> R) (eps K samples : R), 0 < len -> 0 < samples -> 0 <= eps -> 0 <= K -> (forall t v : R, 0 <= t <= 1 -> lengthAt t = Ok v -> Rabs (v - A t) <= eps) -> Rabs (len - A 1) <= eps -> (forall t h : R, 0 <= t -> 0 <= h -> t + h <= 1 -> A (t + h) - A t <= K * h) -> forall (fuel1 fuel2 : nat) (ts : list R), regularSampleTValue ROps lengthAt len fuel1 fuel2 samples = Ok ts -> exists (t0 : R) (r : list R), ts = t0 :: r /\ C10flat.fine_partition (fun a b : R => A b - A a) (len / samples + K * (1 / len) + 2 * eps) t0 r 1.
+Proof. exact @C16space.regular_fine_partition. Qed.
+Theorem C16_cubic_regular_spacing :
+  forall (s : seg4 R) (m M : R), 0 < m -> (forall u : R, 0 <= u <= 1 -> m <= C04.cubic_speed s u <= M) -> M <= 2 * m -> forall (cap : nat) (samples : R) (ts : list R), 0 < samples -> seg_regularSampleTValue ROps cap (SCubic s) samples = Ok ts -> C10flat.fine_partition_01 (C10flat.cubic_arclen s) (Cubic_length ROps s / samples + M * (1 / Cubic_length ROps s) + 4 / 10 ^ 4 * C10flat.cubic_arclen s 0 1) ts.
+Proof. exact @C16space.cubic_regular_spacing. Qed.
+Theorem C16_cubic_regular_spacing_const :
+  forall (s : seg4 R) (m M : R), 0 < m -> (forall u : R, 0 <= u <= 1 -> m <= C04.cubic_speed s u <= M) -> M <= 2 * m -> forall (cap : nat) (samples : R) (ts : list R), 0 < samples -> seg_regularSampleTValue ROps cap (SCubic s) samples = Ok ts -> C10flat.fine_partition_01 (C10flat.cubic_arclen s) (Cubic_length ROps s / samples + 2001 / 1000 + 4 / 10 ^ 4 * C10flat.cubic_arclen s 0 1) ts.
+Proof. exact @C16space.cubic_regular_spacing_const. Qed.
+Theorem C16_quad_regular_spacing :
+  forall (s : seg3 R) (m M : R), 0 < m -> (forall u : R, 0 <= u <= 1 -> m <= C04.quad_speed s u <= M) -> M <= 2 * m -> forall (cap : nat) (samples : R) (ts : list R), 0 < samples -> seg_regularSampleTValue ROps cap (SQuad s) samples = Ok ts -> C10flat.fine_partition_01 (C10flat.quad_arclen s) (Quad_length ROps s / samples + M * (1 / Quad_length ROps s) + 4 / 10 ^ 4 * C10flat.quad_arclen s 0 1) ts.
+Proof. exact @C16space.quad_regular_spacing. Qed.
 
 Print Assumptions C16_segment_lengthAt_ends.
 Print Assumptions C16_path_lengthAt_ends.
@@ -137,3 +156,8 @@ Print Assumptions C16_Path_lengthAtTime_is_generated.
 Print Assumptions C16_cubic_lengthAtTime_accuracy.
 Print Assumptions C16_quad_lengthAtTime_accuracy.
 Print Assumptions C16_cubic_lengthAtTime_increase.
+Print Assumptions C16_regular_gaps.
+Print Assumptions C16_regular_fine_partition.
+Print Assumptions C16_cubic_regular_spacing.
+Print Assumptions C16_cubic_regular_spacing_const.
+Print Assumptions C16_quad_regular_spacing.
